@@ -6,6 +6,9 @@ The import-time behaviour of every bs4 / soupsieve module is the generated event
 way CPython's import system does.  The theorems below are about **all** sequences of import statements
 typed into one fresh interpreter: they are proved by induction over the sequence, the finitely many
 facts about the generated graph being established by kernel evaluation (`decide +kernel`).
+
+Names are numbers in the model; `Gen.Imports.names` gives their text (`names_of_entry_ids`,
+`graph_modules`).
 -/
 import SoupVerif.Generated.Imports
 import SoupVerif.Lemmas.Imports
@@ -14,45 +17,75 @@ namespace SoupVerif.C16
 open SoupVerif.Imports
 
 abbrev G : Graph := Gen.Imports.graph
-abbrev all : List String := Gen.Imports.soupsieveAll
+abbrev ids : EntryIds := Gen.Imports.entryIds
+abbrev names : List String := Gen.Imports.names
+
+/-- The fresh interpreter. -/
+abbrev fresh : Interp := .empty Gen.Imports.width
 
 /-- One import statement in interpreter state `st`. -/
-abbrev exec (st : Interp) (e : EntryPoint) : Except ImportErr Interp := execEntry G all st e
+abbrev exec (st : Interp) (e : EntryPoint) : Except ImportErr Interp := execEntry G ids st e
 
 /-- A sequence of import statements, one after the other, in the same interpreter. -/
-abbrev runSeq (st : Interp) (seq : List EntryPoint) : Except ImportErr Interp := run G all st seq
+abbrev runSeq (st : Interp) (seq : List EntryPoint) : Except ImportErr Interp := run G ids st seq
 
-/-! ### Nothing untranslated -/
+/-! ### The generated data is what it is meant to be -/
+
+/-- Node k is module k, parents precede children, every name id is below `width`; there is a text for
+every id. -/
+theorem graph_wellFormed : (G.wellFormed Gen.Imports.width && (names.length == Gen.Imports.width)) = true := by
+  decide +kernel
 
 /-- The translator understood every top-level statement of every module (no `unknown` event). -/
 theorem no_unknown_events :
     G.all (fun node => node.events.all (fun e => match e with | .unknown _ => false | _ => true)) = true := by
   decide +kernel
 
-/-- The modules the property text names are all in the graph. -/
-theorem graph_covers :
-    ["bs4", "bs4.builder", "bs4.element", "bs4.css", "soupsieve", "soupsieve.__meta__", "soupsieve.util",
-     "soupsieve.pretty", "soupsieve.css_types", "soupsieve.css_match", "soupsieve.css_parser"].all
-      (fun m => (G.node? m).isSome) = true := by
+/-- The modules of the graph, by name: the seven soupsieve modules and the bs4 modules on the import chain. -/
+theorem graph_modules :
+    G.map (fun node => nameOf names node.name) =
+      ["bs4", "bs4.element", "soupsieve", "soupsieve.__meta__", "soupsieve.util", "soupsieve.pretty",
+       "soupsieve.css_types", "soupsieve.css_match", "soupsieve.css_parser", "bs4.builder",
+       "bs4.builder._htmlparser", "bs4.dammit", "bs4.css", "bs4._deprecation", "bs4.formatter", "bs4.filter",
+       "bs4._typing", "bs4.exceptions", "bs4._warnings", "bs4.builder._html5lib", "bs4.builder._lxml"] := by
+  decide +kernel
+
+/-- Parent / last-component ids agree with the dotted names. -/
+theorem graph_dotted_names :
+    G.all (fun node =>
+      match node.parent with
+      | none => nameOf names node.name == nameOf names node.leaf
+      | some p => nameOf names node.name == nameOf names p ++ "." ++ nameOf names node.leaf) = true := by
+  decide +kernel
+
+/-- The ids the entry points use denote "bs4", "bs4.element", "soupsieve", "soupsieve.css_match",
+"soupsieve.css_parser", "soupsieve.css_types", "BeautifulSoup" and the members of `soupsieve.__all__`. -/
+theorem names_of_entry_ids :
+    [ids.bs4, ids.bs4Element, ids.soupsieve, ids.cssMatch, ids.cssParser, ids.cssTypes, ids.beautifulSoup].map
+        (nameOf names) =
+      ["bs4", "bs4.element", "soupsieve", "soupsieve.css_match", "soupsieve.css_parser", "soupsieve.css_types",
+       "BeautifulSoup"] ∧
+    ids.all.map (nameOf names) = Gen.Imports.soupsieveAllNames := by
   decide +kernel
 
 /-! ### A fresh interpreter -/
 
-/-- **fresh_import_ok.** Each statement, typed first into a fresh interpreter, succeeds, and every module it
-touched (everything that is in `sys.modules` afterwards) is fully initialised. -/
+/-- **fresh_import_ok.** Each statement, typed first into a fresh interpreter, succeeds; every module it
+touched (everything that is in `sys.modules` afterwards) is fully initialised, and soupsieve and bs4 are among
+them. -/
 theorem fresh_import_ok : ∀ e ∈ entryPoints,
-    ∃ st, runSeq .empty [e] = .ok st ∧ st.allDone = true ∧ st.modules ≠ [] := by
+    ∃ st, runSeq fresh [e] = .ok st ∧ st.allDone = true ∧ st.has ids.soupsieve = true ∧ st.has ids.bs4 = true := by
   have h : entryPoints.all (fun e =>
-      match runSeq .empty [e] with
-      | .ok st => st.allDone && !st.modules.isEmpty
+      match runSeq fresh [e] with
+      | .ok st => st.allDone && st.has ids.soupsieve && st.has ids.bs4
       | .error _ => false) = true := by decide +kernel
   intro e he
   have := List.all_eq_true.mp h e he
-  cases hr : runSeq .empty [e] with
+  cases hr : runSeq fresh [e] with
   | error x => simp [hr] at this
   | ok st =>
-    simp [hr] at this
-    exact ⟨st, rfl, this.1, by intro h0; simp [h0] at this⟩
+    simp only [hr, Bool.and_eq_true] at this
+    exact ⟨st, rfl, this.1.1, this.1.2, this.2⟩
 
 /-! ### The reachable states form a finite set closed under every statement -/
 
@@ -65,7 +98,7 @@ def expand (S : List Interp) : List Interp :=
       | .error _ => acc) acc) S
 
 /-- Everything reachable from the fresh interpreter in at most two statements. -/
-def reachable : List Interp := expand (expand [.empty])
+def reachable : List Interp := expand (expand [fresh])
 
 def closedUnder (R : List Interp) : Bool :=
   R.all fun s => entryPoints.all fun e =>
@@ -75,10 +108,10 @@ def closedUnder (R : List Interp) : Bool :=
 
 /-- The inductive invariant: `reachable` contains the fresh interpreter and is closed under every statement
 (in particular no statement fails in any reachable state). -/
-theorem reachable_closed : (reachable.contains .empty && closedUnder reachable) = true := by
+theorem reachable_closed : (reachable.contains fresh && closedUnder reachable) = true := by
   decide +kernel
 
-theorem empty_mem_reachable : Interp.empty ∈ reachable := by
+theorem fresh_mem_reachable : fresh ∈ reachable := by
   have := reachable_closed
   simp only [Bool.and_eq_true] at this
   simpa using this.1
@@ -100,76 +133,80 @@ theorem runSeq_reachable (seq : List EntryPoint) : ∀ {s : Interp}, s ∈ reach
     intro s hs
     obtain ⟨s1, hs1, h1⟩ := exec_reachable hs e
     obtain ⟨s2, hs2, h2⟩ := ih hs1
-    exact ⟨s2, hs2, by rw [show runSeq s (e :: es) = runSeq s1 es from run_cons_ok G all s s1 e es h1]; exact h2⟩
+    exact ⟨s2, hs2, by rw [show runSeq s (e :: es) = runSeq s1 es from run_cons_ok G ids s s1 e es h1]; exact h2⟩
 
 /-- **any_order_ok.** Every sequence of import statements -- any statements, any order, any length, with
 repetitions -- succeeds in a fresh interpreter. -/
-theorem any_order_ok (seq : List EntryPoint) : isOk (runSeq .empty seq) = true := by
-  obtain ⟨s', _, h⟩ := runSeq_reachable seq empty_mem_reachable
+theorem any_order_ok (seq : List EntryPoint) : isOk (runSeq fresh seq) = true := by
+  obtain ⟨s', _, h⟩ := runSeq_reachable seq fresh_mem_reachable
   simp [h, isOk]
 
-/-- Every reachable state has only fully initialised modules, and `canon` describes it faithfully. -/
-theorem reachable_allDone : reachable.all (fun s => s.allDone && canonFaithful G s) = true := by
+/-- Every reachable state has only fully initialised modules. -/
+theorem reachable_allDone : reachable.all (fun s => s.allDone) = true := by
   decide +kernel
 
-/-- **No partially initialised module survives**: after any successful sequence every module in `sys.modules`
-is fully initialised. -/
-theorem no_partial_modules (seq : List EntryPoint) (st : Interp) (h : runSeq .empty seq = .ok st) :
+/-- **No partially initialised module survives**: after any sequence every module in `sys.modules` is fully
+initialised. -/
+theorem no_partial_modules (seq : List EntryPoint) (st : Interp) (h : runSeq fresh seq = .ok st) :
     st.allDone = true := by
-  obtain ⟨s', hs', h'⟩ := runSeq_reachable seq empty_mem_reachable
+  obtain ⟨s', hs', h'⟩ := runSeq_reachable seq fresh_mem_reachable
   rw [h] at h'
   cases h'
-  have := List.all_eq_true.mp reachable_allDone st hs'
-  simp only [Bool.and_eq_true] at this
-  exact this.1
+  exact List.all_eq_true.mp reachable_allDone st hs'
 
 /-! ### Re-import -/
 
 /-- **reimport_noop** (any interpreter state whatsoever): when the modules a statement names are already in
-`sys.modules` and the names it fetches are already bound, the statement succeeds and changes nothing. -/
+`sys.modules` -- in whatever state of initialisation -- and the names it fetches are already bound, the
+statement succeeds and changes nothing. -/
 theorem reimport_noop (st : Interp) (e : EntryPoint)
-    (h : (e.events all).all (fun ev => ev.settled G st) = true) : runSeq st [e] = .ok st := by
-  show run G all st [e] = .ok st
-  rw [run_cons_ok G all st st e [] (execEntry_settled G all st e h)]
+    (h : (e.events ids).all (fun ev => ev.settled G st) = true) : runSeq st [e] = .ok st := by
+  show run G ids st [e] = .ok st
+  rw [run_cons_ok G ids st st e [] (execEntry_settled G ids st e h)]
   rfl
 
-/-- After the first statement everything any statement needs is there: in every reachable state other than
-the fresh interpreter every entry point is settled ... -/
+/-- In every reachable state other than the fresh interpreter every entry point is settled ... -/
 theorem reachable_settled :
-    reachable.all (fun s => s == .empty ||
-      entryPoints.all (fun e => (e.events all).all (fun ev => ev.settled G s))) = true := by
+    reachable.all (fun s => s == fresh ||
+      entryPoints.all (fun e => (e.events ids).all (fun ev => ev.settled G s))) = true := by
   decide +kernel
 
-/-- ... hence a second, third, ... statement never changes `sys.modules` again. -/
-theorem later_imports_noop (e₀ : EntryPoint) (st : Interp) (h : runSeq .empty [e₀] = .ok st)
-    (rest : List EntryPoint) : runSeq .empty (e₀ :: rest) = .ok st := by
-  have hst : st ∈ reachable ∧ st ≠ .empty := by
-    obtain ⟨s', hs', h'⟩ := runSeq_reachable [e₀] empty_mem_reachable
-    rw [h] at h'; cases h'
-    refine ⟨hs', ?_⟩
+theorem settled_after_first {e₀ : EntryPoint} {st : Interp} (h : runSeq fresh [e₀] = .ok st) (e : EntryPoint) :
+    (e.events ids).all (fun ev => ev.settled G st) = true := by
+  obtain ⟨s', hs', h'⟩ := runSeq_reachable [e₀] fresh_mem_reachable
+  rw [h] at h'; cases h'
+  have hne : st ≠ fresh := by
     intro h0
-    obtain ⟨s2, h2, _, hne⟩ := fresh_import_ok e₀ (mem_entryPoints e₀)
+    obtain ⟨s2, h2, _, hsv, _⟩ := fresh_import_ok e₀ (mem_entryPoints e₀)
     rw [h] at h2; cases h2
-    exact hne (by rw [h0]; rfl)
-  have hsettled : ∀ e, (e.events all).all (fun ev => ev.settled G st) = true := by
-    intro e
-    have := List.all_eq_true.mp reachable_settled st hst.1
-    simp only [Bool.or_eq_true, beq_iff_eq] at this
-    rcases this with h0 | h1
-    · exact absurd h0 hst.2
-    · exact List.all_eq_true.mp h1 e (mem_entryPoints e)
+    rw [h0] at hsv
+    revert hsv
+    decide +kernel
+  have := List.all_eq_true.mp reachable_settled st hs'
+  simp only [Bool.or_eq_true, beq_iff_eq] at this
+  rcases this with h0 | h1
+  · exact absurd h0 hne
+  · exact List.all_eq_true.mp h1 e (mem_entryPoints e)
+
+/-- ... hence the second, third, ... statement never changes `sys.modules` again: the whole sequence ends in
+the state the first statement produced. -/
+theorem later_imports_noop (e₀ : EntryPoint) (st : Interp) (h : runSeq fresh [e₀] = .ok st)
+    (rest : List EntryPoint) : runSeq fresh (e₀ :: rest) = .ok st := by
   have hrest : ∀ rest : List EntryPoint, runSeq st rest = .ok st := by
     intro rest
     induction rest with
     | nil => rfl
     | cons e es ih =>
-      show run G all st (e :: es) = .ok st
-      rw [run_cons_ok G all st st e es (execEntry_settled G all st e (hsettled e))]
+      show run G ids st (e :: es) = .ok st
+      rw [run_cons_ok G ids st st e es (execEntry_settled G ids st e (settled_after_first h e))]
       exact ih
-  have : runSeq .empty ([e₀] ++ rest) = runSeq st rest := run_append G all .empty st [e₀] rest h
+  have : runSeq fresh ([e₀] ++ rest) = runSeq st rest := run_append G ids fresh st [e₀] rest h
   simpa using this.trans (hrest rest)
 
-/-! ### The final state does not depend on the order -/
+/-! ### The final state does not depend on the order
+
+The model's state does not record the insertion order of `sys.modules`, so "the same final state" is plain
+equality: the same modules, each with the same bound names, each fully initialised. -/
 
 /-- Total version of `exec` (a failing statement leaves the state alone; by `any_order_ok` it never happens). -/
 def step (s : Interp) (e : EntryPoint) : Interp :=
@@ -189,100 +226,66 @@ theorem runSeq_eq_foldl (seq : List EntryPoint) : ∀ {s : Interp}, s ∈ reacha
     intro s hs
     obtain ⟨s', hs', h⟩ := exec_reachable hs e
     have hstep : step s e = s' := by simp [step, h]
-    show run G all s (e :: es) = _
-    rw [run_cons_ok G all s s' e es h, List.foldl_cons, hstep]
+    show run G ids s (e :: es) = _
+    rw [run_cons_ok G ids s s' e es h, List.foldl_cons, hstep]
     exact ih hs'
 
-/-- On reachable states: statements respect the order-free view, and any two statements commute up to it. -/
-theorem canon_congr_comm :
-    (reachable.all fun s => reachable.all fun s' =>
-      !(canon G s == canon G s') || entryPoints.all fun e => canon G (step s e) == canon G (step s' e)) &&
+/-- On reachable states any two statements commute. -/
+theorem step_comm_reachable :
     (reachable.all fun s => entryPoints.all fun e₁ => entryPoints.all fun e₂ =>
-      canon G (step (step s e₁) e₂) == canon G (step (step s e₂) e₁)) = true := by
+      step (step s e₁) e₂ == step (step s e₂) e₁) = true := by
   decide +kernel
 
-theorem canon_congr {s s' : Interp} (hs : s ∈ reachable) (hs' : s' ∈ reachable)
-    (h : canon G s = canon G s') (e : EntryPoint) : canon G (step s e) = canon G (step s' e) := by
-  have := canon_congr_comm
-  simp only [Bool.and_eq_true] at this
-  have h1 := List.all_eq_true.mp (List.all_eq_true.mp this.1 s hs) s' hs'
-  simp only [Bool.or_eq_true, Bool.not_eq_true', beq_eq_false_iff_ne, ne_eq] at h1
-  rcases h1 with h1 | h1
-  · exact absurd h h1
-  · simpa using List.all_eq_true.mp h1 e (mem_entryPoints e)
-
-theorem canon_comm {s : Interp} (hs : s ∈ reachable) (e₁ e₂ : EntryPoint) :
-    canon G (step (step s e₁) e₂) = canon G (step (step s e₂) e₁) := by
-  have := canon_congr_comm
-  simp only [Bool.and_eq_true] at this
-  have h := List.all_eq_true.mp (List.all_eq_true.mp (List.all_eq_true.mp this.2 s hs) e₁ (mem_entryPoints e₁))
+theorem step_comm {s : Interp} (hs : s ∈ reachable) (e₁ e₂ : EntryPoint) :
+    step (step s e₁) e₂ = step (step s e₂) e₁ := by
+  have h := List.all_eq_true.mp
+    (List.all_eq_true.mp (List.all_eq_true.mp step_comm_reachable s hs) e₁ (mem_entryPoints e₁))
     e₂ (mem_entryPoints e₂)
   simpa using h
 
-theorem foldl_step_mem (seq : List EntryPoint) : ∀ {s : Interp}, s ∈ reachable → seq.foldl step s ∈ reachable := by
-  induction seq with
-  | nil => intro s hs; exact hs
-  | cons e es ih => intro s hs; exact ih (step_mem hs e)
-
-theorem canon_foldl_congr (seq : List EntryPoint) : ∀ {s s' : Interp}, s ∈ reachable → s' ∈ reachable →
-    canon G s = canon G s' → canon G (seq.foldl step s) = canon G (seq.foldl step s') := by
-  induction seq with
-  | nil => intro s s' _ _ h; exact h
-  | cons e es ih =>
-    intro s s' hs hs' h
-    exact ih (step_mem hs e) (step_mem hs' e) (canon_congr hs hs' h e)
-
-theorem canon_foldl_perm {l₁ l₂ : List EntryPoint} (p : l₁.Perm l₂) : ∀ {s s' : Interp},
-    s ∈ reachable → s' ∈ reachable → canon G s = canon G s' →
-    canon G (l₁.foldl step s) = canon G (l₂.foldl step s') := by
+theorem foldl_step_perm {l₁ l₂ : List EntryPoint} (p : l₁.Perm l₂) : ∀ {s : Interp}, s ∈ reachable →
+    l₁.foldl step s = l₂.foldl step s := by
   induction p with
-  | nil => intro s s' _ _ h; exact h
-  | cons x _ ih =>
-    intro s s' hs hs' h
-    exact ih (step_mem hs x) (step_mem hs' x) (canon_congr hs hs' h x)
-  | swap x y l =>
-    intro s s' hs hs' h
-    simp only [List.foldl_cons]
-    apply canon_foldl_congr l (step_mem (step_mem hs y) x) (step_mem (step_mem hs' x) y)
-    rw [canon_comm hs y x]
-    exact canon_congr (step_mem hs x) (step_mem hs' x) (canon_congr hs hs' h x) y
-  | trans _ _ ih₁ ih₂ =>
-    intro s s' hs hs' h
-    exact (ih₁ hs hs' h).trans (ih₂ hs' hs' rfl)
+  | nil => intro s _; rfl
+  | cons x _ ih => intro s hs; exact ih (step_mem hs x)
+  | swap x y l => intro s hs; simp only [List.foldl_cons]; rw [step_comm hs y x]
+  | trans _ _ ih₁ ih₂ => intro s hs; exact (ih₁ hs).trans (ih₂ hs)
 
 /-- **final_state_order_independent.** Two sequences made of the same statements in a different order leave
-the same `sys.modules` behind: the same modules, each with the same bound names, each fully initialised
-(`canon` forgets only the insertion order of the dictionary entries, cf. `reachable_allDone`). -/
+the same `sys.modules` behind. -/
 theorem final_state_order_independent (seq₁ seq₂ : List EntryPoint) (p : seq₁.Perm seq₂) :
-    ∃ st₁ st₂, runSeq .empty seq₁ = .ok st₁ ∧ runSeq .empty seq₂ = .ok st₂ ∧ canon G st₁ = canon G st₂ :=
-  ⟨_, _, runSeq_eq_foldl seq₁ empty_mem_reachable, runSeq_eq_foldl seq₂ empty_mem_reachable,
-    canon_foldl_perm p empty_mem_reachable empty_mem_reachable rfl⟩
+    ∃ st, runSeq fresh seq₁ = .ok st ∧ runSeq fresh seq₂ = .ok st :=
+  ⟨_, runSeq_eq_foldl seq₁ fresh_mem_reachable,
+    by rw [foldl_step_perm p fresh_mem_reachable]; exact runSeq_eq_foldl seq₂ fresh_mem_reachable⟩
 
-/-- On this tree the first statement already loads every module of the graph, so in fact *every* non-empty
-sequence ends in the same state up to order. -/
+/-- On this tree the first statement already loads every module of the graph ... -/
+theorem first_import_loads_everything :
+    entryPoints.all (fun e => exec fresh e == exec fresh .importBs4) = true := by
+  decide +kernel
+
+/-- ... so *every* non-empty sequence, whatever it is made of, ends in one and the same state. -/
 theorem final_state_unique (seq₁ seq₂ : List EntryPoint) (h₁ : seq₁ ≠ []) (h₂ : seq₂ ≠ []) :
-    ∃ st₁ st₂, runSeq .empty seq₁ = .ok st₁ ∧ runSeq .empty seq₂ = .ok st₂ ∧ canon G st₁ = canon G st₂ := by
-  have key : (reachable.all fun s => reachable.all fun s' =>
-      s == .empty || s' == .empty || canon G s == canon G s') = true := by decide +kernel
-  have nonempty : ∀ seq : List EntryPoint, seq ≠ [] → ∃ st ∈ reachable, runSeq .empty seq = .ok st ∧ st ≠ .empty := by
+    ∃ st, runSeq fresh seq₁ = .ok st ∧ runSeq fresh seq₂ = .ok st := by
+  have one : ∀ seq : List EntryPoint, seq ≠ [] → runSeq fresh seq = exec fresh .importBs4 := by
     intro seq hne
     cases seq with
     | nil => exact absurd rfl hne
     | cons e rest =>
-      obtain ⟨st, hst, hd, hmods⟩ := fresh_import_ok e (mem_entryPoints e)
-      have := later_imports_noop e st hst rest
-      obtain ⟨s', hs', h'⟩ := runSeq_reachable (e :: rest) empty_mem_reachable
-      rw [this] at h'; cases h'
-      exact ⟨st, hs', this, by intro h0; exact hmods (by rw [h0]; rfl)⟩
-  obtain ⟨st₁, m₁, r₁, n₁⟩ := nonempty seq₁ h₁
-  obtain ⟨st₂, m₂, r₂, n₂⟩ := nonempty seq₂ h₂
-  refine ⟨st₁, st₂, r₁, r₂, ?_⟩
-  have := List.all_eq_true.mp (List.all_eq_true.mp key st₁ m₁) st₂ m₂
-  simp only [Bool.or_eq_true, beq_iff_eq] at this
-  rcases this with (h | h) | h
-  · exact absurd h n₁
-  · exact absurd h n₂
-  · exact h
+      obtain ⟨st, hst, _⟩ := fresh_import_ok e (mem_entryPoints e)
+      rw [later_imports_noop e st hst rest]
+      have he := List.all_eq_true.mp first_import_loads_everything e (mem_entryPoints e)
+      have he' : exec fresh e = exec fresh .importBs4 := by simpa using he
+      rw [← he']
+      have : runSeq fresh [e] = exec fresh e := by
+        show run G ids fresh [e] = execEntry G ids fresh e
+        cases hx : execEntry G ids fresh e <;> simp [run, hx]
+      rw [← this, hst]
+  obtain ⟨st, hst, _⟩ := fresh_import_ok .importBs4 (mem_entryPoints _)
+  refine ⟨st, ?_, ?_⟩
+  · rw [one seq₁ h₁, ← hst]; show _ = run G ids fresh [.importBs4]
+    cases hx : execEntry G ids fresh .importBs4 <;> simp [run, hx]
+  · rw [one seq₂ h₂, ← hst]; show _ = run G ids fresh [.importBs4]
+    cases hx : execEntry G ids fresh .importBs4 <;> simp [run, hx]
 
 /-! ### No import-time output -/
 
@@ -296,22 +299,34 @@ theorem no_import_time_local_imports : Gen.Imports.importTimeLocalImports = [] :
 /-! ### The historical defect is expressible -/
 
 /-- css_match as it was: `class _FakeParent(bs4.Tag)` evaluates `bs4.Tag` right after `import bs4`. -/
-def insertAfterImportBs4 : List Event → List Event
+def insertAfterImportBs4 (tag : Name) : List Event → List Event
   | [] => []
-  | .importMod "bs4" :: rest => .importMod "bs4" :: .useAttr "bs4" "Tag" false :: rest
-  | e :: rest => e :: insertAfterImportBs4 rest
+  | .importMod m :: rest =>
+    if m == ids.bs4 then .importMod m :: .useAttr ids.bs4 tag false :: rest
+    else .importMod m :: insertAfterImportBs4 tag rest
+  | e :: rest => e :: insertAfterImportBs4 tag rest
 
 def pinnedGraph : Graph :=
   G.map fun node =>
-    if node.name == "soupsieve.css_match" then { node with events := insertAfterImportBs4 node.events } else node
+    if node.name == ids.cssMatch then
+      { node with events := insertAfterImportBs4 (idOf names "Tag") node.events }
+    else node
 
 /-- With the pinned css_match, `import bs4` in a fresh interpreter dies with
 `AttributeError: partially initialized module 'bs4' has no attribute 'Tag'` ... -/
-example : run pinnedGraph all .empty [.importBs4] = .error (.attributeError "bs4" "Tag") := by
+example : run pinnedGraph ids fresh [.importBs4] =
+    .error (.attributeError (idOf names "bs4") (idOf names "Tag")) := by
+  decide +kernel
+
+/-- ... and so do `from bs4 import BeautifulSoup` and `import bs4.element` ... -/
+example : run pinnedGraph ids fresh [.fromBs4ImportBeautifulSoup] =
+      .error (.attributeError (idOf names "bs4") (idOf names "Tag")) ∧
+    run pinnedGraph ids fresh [.importBs4Element] =
+      .error (.attributeError (idOf names "bs4") (idOf names "Tag")) := by
   decide +kernel
 
 /-- ... while `import soupsieve` first still works (which is why the test-suite never saw it). -/
-example : isOk (run pinnedGraph all .empty [.importSoupsieve, .importBs4]) = true := by
+example : isOk (run pinnedGraph ids fresh [.importSoupsieve, .importBs4]) = true := by
   decide +kernel
 
 end SoupVerif.C16
